@@ -125,7 +125,10 @@ def norm_block(e) -> Any:
     if isinstance(e, block.ThematicBreak):
         return ("hr",)
     if isinstance(e, block.LinkRefDef):
-        return ("linkdef", e.label, e.dest, e.title or None)
+        t = e.title or None
+        if t and len(t) >= 2 and (t[0], t[-1]) in (('"', '"'), ("'", "'"), ("(", ")")):
+            t = re.sub(r"\\(.)", r"\1", t[1:-1])  # delimiters and backslash escapes are spelling, not content
+        return ("linkdef", e.label, e.dest, t)
     if isinstance(e, footnote.FootnoteDef):
         return ("fndef", e.label, norm_blocks(e.children))
     if isinstance(e, gfm.Table):
@@ -150,6 +153,10 @@ def first_diff(a: Any, b: Any, path: str = "") -> str | None:
         return None
     if isinstance(a, tuple) and isinstance(b, tuple):
         if len(a) != len(b):
+            k = next((i for i, (x, y) in enumerate(zip(a, b)) if x != y), min(len(a), len(b)))
+            xa = a[k] if k < len(a) else "<end>"
+            xb = b[k] if k < len(b) else "<end>"
+            return f"{path}: {len(a)} vs {len(b)} children; first difference at [{k}]: {str(xa)[:160]!r} vs {str(xb)[:160]!r}"
             kinds_a = [x[0] if isinstance(x, tuple) and x else x for x in a]
             kinds_b = [x[0] if isinstance(x, tuple) and x else x for x in b]
             return f"{path}: {len(a)} vs {len(b)} children: {str(kinds_a)[:160]} vs {str(kinds_b)[:160]}"
